@@ -264,8 +264,11 @@ def build3(m):
         MOD + ':Quote.convert_leading_tabs', [('string', STR)], returns=STR, pure=True,
         requires=['len(string) >= 1'],
         ensures=['len(result) >= 1', 'implies(len(string) >= 2, len(result) >= 2)',
-                 "implies(string.startswith('>'), result.startswith('>'))"],
-        loops={0: Loop(invariant=['count >= 0'])},
+                 "implies(string.startswith('>'), result.startswith('>'))",
+                 # a tab-free line that starts with the marker is left alone (C04)
+                 "implies(string.startswith('>') and not ('\\t' in string), result == string)"],
+        loops={0: Loop(invariant=['count >= 0',
+                                  "implies(_k0 >= 1, string[0] == ' ' or string[0] == '\\t')"])},
         prop=['C01', 'C04']), static=True)
     method('Quote', 'read', Contract(
         MOD + ':Quote.read', [('cls', cls_t('Quote')), ('lines', FW)], returns=TOpt(PB),
@@ -456,3 +459,39 @@ def build6(m):
         prop=P + ['C07'],
         note="assumed lemma (A4): the joined buffer contains exactly one '\\n' per buffered line (LINES_OK)"),
         classmethod_=True)
+
+
+def build7(m):
+    """C04: Quote.read strips exactly the marker from marked, tab-free lines and keeps one buffer
+    line per source line (second view of Quote.read; cursor obligations are in the main view)."""
+    NESTED = ['N:FileWrapper._index', 'N:FileWrapper.lines', 'N:FileWrapper.start_line',
+              'N:FileWrapper._anchor', 'N:ParseBuffer.items', 'N:ParseBuffer.loose']
+    m.predicate('QLINE', ['l'], "l.startswith('>') and not ('\\t' in l)")
+    m.predicate('STRIPQ', ['l'], "l[2:] if l.startswith('> ') else l[1:]")
+    FIRST = 'lines.lines[old(lines._index) + 1]'
+    m.add(Contract(MOD + ':Quote.read#strip', [('cls', cls_t('Quote')), ('lines', FW)], returns=TOpt(PB),
+                   requires=READER_REQ + ["lines.lines[lines._index + 1].lstrip(' ').startswith('>')"],
+                   assume_callee_pre=True,
+                   ensures=[('len(line_buffer) == lines._index - old(lines._index)', 'C04')],
+                   ghost_after={
+                       # first line: exactly the marker (and one optional space) is removed
+                       'line_buffer = [line]': [
+                           ('__assert__', ('implies(QLINE(%s), line == STRIPQ(%s))' % (FIRST, FIRST), 'C04'))],
+                       # every later marked line likewise; the buffer is append-only, one element per source line
+                       'line_buffer.append(stripped)': [
+                           ('__assert__', ('implies(QLINE(lines.lines[lines._index + 1]), '
+                                           'stripped == STRIPQ(lines.lines[lines._index + 1]))', 'C04'))],
+                   },
+                   call_asserts={'mistletoe.block_tokenizer:tokenize_block': [
+                       # the nested tokenization gets exactly the buffer of stripped lines
+                       ('same(arg_iterable, line_buffer)', 'C04')]},
+                   modifies=['lines._index', 'G:SCRATCH', 'G:FOOTNOTES', 'G:CodeFence._open_info',
+                             'G:Paragraph.parse_setext'] + NESTED,
+                   allow_exc=['CustomTokenError'],
+                   body_types={'next_line': TOpt(STR), 'line_buffer': TList(STR)},
+                   loops={0: Loop(invariant=[
+                       'CURSOR_OK(lines)', 'lines._index > old(lines._index)',
+                       'len(line_buffer) == lines._index - old(lines._index)',
+                       'is_none(next_line) == (lines._index + 1 >= len(lines.lines))',
+                       'implies(not is_none(next_line), some(next_line) == lines.lines[lines._index + 1])'])},
+                   prop=['C04'], options={'tier': 'thorough'}))
